@@ -1,7 +1,6 @@
 //! C01 (reliable), C02 (best effort), C05b (fragmented end-to-end): data path under network faults.
 use crate::common::*;
 use dust_dds::infrastructure::qos::{DataReaderQos, DataWriterQos};
-use dust_dds::infrastructure::qos_policy::*;
 use dust_dds::infrastructure::sample_info::{ANY_INSTANCE_STATE, ANY_SAMPLE_STATE, ANY_VIEW_STATE};
 use simnet::*;
 use std::cell::RefCell;
